@@ -20,18 +20,13 @@
 import AgeModel.GoSem
 import AgeModel.File
 import AgeModel.Extracted.Funcs
-import Proofs.GoTieMisc
+import Proofs.GoTieSlicesEq
+import Proofs.GoTieTape
 import Proofs.GoTieFormat
 import Proofs.GoTieUnwrap
 namespace AgeModel
 namespace GoTie
 open Extracted Stream
-
-/-- `rand.Read` on a tape of bytes: the next `n` bytes, or an error when the tape is exhausted -/
-def tapeRead (eRand : Go.Err) (tape : Bytes) (n : Int) : Go.M (Bytes × Option Go.Err × Bytes) :=
-  match draw n.toNat tape with
-  | some (b, t) => .ok (b, none, t)
-  | none => .ok ([], some eRand, tape)
 
 /-- which Go errors Encrypt may return for each error class of the model -/
 def encErrRel (eRand : Go.Err) : EncErr → Option Go.Err → Prop
@@ -97,15 +92,6 @@ theorem encrypt_loop2_eq {δ τ ω : Type} (tape : τ) (dst : δ) :
     simp only [List.map, age_Encrypt_loop2]
     rw [encrypt_loop2_eq tape dst ss]
     simp only [toGoStanza, toGoFStanza, List.append_assoc, List.singleton_append]
-
-theorem writeAt16 (b : Bytes) (h : b.length = 16) : Go.writeAt (List.replicate 16 0) 0 b = b := by
-  simp [Go.writeAt, h]
-
-theorem draw_length {n : Nat} {t b t' : Bytes} (h : draw n t = some (b, t')) : b.length = n := by
-  unfold draw at h
-  split at h
-  · cases h; simp only [List.length_take]; omega
-  · cases h
 
 section steps
 variable {δ ρ ω : Type} (nilW : ω)
@@ -205,20 +191,6 @@ theorem encrypt_loop1_eq (P : Prims) {S : DstSpec} {ρ δ ω : Type} (E : Encryp
           · rw [loop1_step_diff _ _ _ _ _ _ _ _ _ _ hW i0' hl]
             simp only [if_neg hl]
             exact ⟨_, rfl, rfl, rfl, rfl⟩
-
-theorem tapeRead_none (eRand : Go.Err) {tape : Bytes} {n : Nat} (h : draw n tape = none) :
-    tapeRead eRand tape (Int.ofNat n) = .ok ([], some eRand, tape) := by
-  show (match draw n tape with
-    | some (b, t) => Except.ok (b, none, t)
-    | none => Except.ok ([], some eRand, tape)) = _
-  simp only [h]
-
-theorem tapeRead_some (eRand : Go.Err) {tape b t : Bytes} {n : Nat} (h : draw n tape = some (b, t)) :
-    tapeRead eRand tape (Int.ofNat n) = .ok (b, none, t) := by
-  show (match draw n tape with
-    | some (b, t) => Except.ok (b, none, t)
-    | none => Except.ok ([], some eRand, tape)) = _
-  simp only [h]
 
 theorem encrypt_tie (P : Prims) {S : DstSpec} {ρ δ ω : Type} (E : EncryptEnv P S ρ δ ω)
     (d : δ) (rs : List ρ) (tape : Bytes) :
